@@ -777,7 +777,8 @@ fn run_history(args: &Args, hist: u64, seed: u64, n_ops: u64, out: &Mutex<Out>) 
     }
     let mut pr = Proto { id_key: pr_id, keys: Vec::new(), parent: "b" };
     if args.get_u64("scripted", 1) == 1 { scripted(&sys, &mut it, hist, &mut marks, out); }
-    if args.get_u64("revstop", 0) == 1 { revstop_probe(&sys, &mut it, hist, &mut marks, out); }
+    // in every fourth history, so that the directed probes of F02d / F02f keep their starting point in the others
+    if args.get_u64("revstop", 0) == 1 && hist % 4 == 3 { revstop_probe(&sys, &mut it, hist, &mut marks, out); }
     let mut roas: BTreeMap<&str, Vec<String>> = BTreeMap::new();
     let mut since_settle = 0;
 
